@@ -16,6 +16,7 @@ import (
 	"strings"
 	"testing"
 	"time"
+	"unicode"
 
 	vegeta "github.com/tsenart/vegeta/v12/lib"
 )
@@ -449,7 +450,7 @@ func (d *c12Drv) parse(r *rand.Rand, toks []uint64) []uint64 {
 // parseNeg feeds a bucket list whose first bound is -first (the rest follow, non-negative and increasing) to the real parser.
 func (d *c12Drv) parseNeg(r *rand.Rand, first uint64, rest []uint64) {
 	text := bucketsText(r, append([]uint64{first}, rest...))
-	i := strings.IndexFunc(text, func(c rune) bool { return c != '[' && c != ' ' && c != '\t' })
+	i := strings.IndexFunc(text, func(c rune) bool { return c != '[' && !unicode.IsSpace(c) }) // the sign goes right in front of the first number
 	text = text[:i] + "-" + text[i:]
 	var bs vegeta.Buckets
 	var err error
